@@ -292,19 +292,32 @@ func c13Hashes(s string) []string {
 	return out
 }
 
-// c13Observe: the stored topology (through the real TopologyStore), whom the real gate admits (asked about the universe,
-// the stored peers and the peerstore's peers), and the peerstore's peers.
-func c13Observe(store *topology.TopologyStore, gate *p2p.ConnectionGate, h *c13Host) string {
-	s := "none"
-	cands := append([]peer.ID{}, c13IDs...)
-	cands = append(cands, h.Peerstore().Peers()...)
-	if t, err := store.Topology(); err == nil {
+// c13Observe: the stored topology as a RESTARTED process would load it (a fresh TopologyStore on the same path, which is
+// what app.Run builds the gate and the peerstore from), whom the live gate admits (asked about the universe, the stored
+// peers and the peerstore's peers), and the peerstore's peers. The live store object must agree with the fresh one.
+func c13Observe(path string, store *topology.TopologyStore, gate *p2p.ConnectionGate, h *c13Host) string {
+	render := func(t *topology.NetworkTopology) string {
 		xs := []string{}
 		for _, p := range t.Peers {
 			xs = append(xs, c13Idx(p.ID))
+		}
+		return joinOr(xs, ",") + "/" + itoa(t.Threshold)
+	}
+	s := "none"
+	cands := append([]peer.ID{}, c13IDs...)
+	cands = append(cands, h.Peerstore().Peers()...)
+	if t, err := topology.NewTopologyStore(path).Topology(); err == nil {
+		for _, p := range t.Peers {
 			cands = append(cands, p.ID)
 		}
-		s = joinOr(xs, ",") + "/" + itoa(t.Threshold)
+		s = render(t)
+	}
+	live := "none"
+	if t, err := store.Topology(); err == nil {
+		live = render(t)
+	}
+	if live != s {
+		return "live-store-disagrees-with-file:" + live + "≠" + s
 	}
 	adm := []string{}
 	for _, id := range cands {
@@ -478,10 +491,11 @@ func init() {
 		if prov.panicked {
 			out = "panic"
 		}
-		return out + "|" + c13Observe(store, gate, h)
+		return out + "|" + c13Observe(path, store, gate, h)
 	}
 	// refreshseq <initial topology> <ev>#<ev>#…   with ev = <hashes>~<body hex|x>~<oracle>~<storeOk>
-	//   => <outcome>,<outcome>,…|S=…|G=…|P=…        the SAME store, gate, host and handler see the whole sequence
+	//   hashes = B: not a refresh but the start-up call NetworkTopology("") on the same provider (result discarded)
+	//   => <outcome>|S=…|G=…|P=…#…   one observation per call; the SAME provider, store, gate, host and handler see the whole sequence
 	ops["C13.refreshseq"] = func(a []string) string {
 		dir, err := os.MkdirTemp("", "verif-c13-")
 		if err != nil {
@@ -517,6 +531,14 @@ func init() {
 				f.body = unhx(p[1])
 			}
 			prov.panicked = false
+			if p[0] == "B" {
+				func() {
+					defer func() { _ = recover() }()
+					_, _ = prov.NetworkTopology("")
+				}()
+				outs = append(outs, map[bool]string{true: "panic", false: "done"}[prov.panicked]+"|"+c13Observe(path, store, gate, h))
+				continue
+			}
 			if p[3] == "0" { // the topology file cannot be opened for writing during this call: a directory sits in its place
 				if err := os.Rename(path, path+".bak"); err != nil {
 					panic(err)
@@ -538,12 +560,12 @@ func init() {
 				}
 			}
 			if prov.panicked {
-				outs = append(outs, "panic")
+				outs = append(outs, "panic|"+c13Observe(path, store, gate, h))
 			} else {
-				outs = append(outs, "done")
+				outs = append(outs, "done|"+c13Observe(path, store, gate, h))
 			}
 		}
-		return strings.Join(outs, ",") + "|" + c13Observe(store, gate, h)
+		return strings.Join(outs, "#")
 	}
 	// conn <A's topology> <B's topology> <broadcast|raw>  => delivered:<attributed sender> | refused        (TEST of the libp2p assumptions)
 	//   Two REAL libp2p hosts built by p2p.NewHost on loopback: A = peer 0 (gater over A's topology), B = peer 1 (gater over
@@ -866,6 +888,79 @@ func genC13(g *G) {
 			evs = append(evs, hash+"~"+b+"~"+c13Oracle(dec)+"~"+sOk)
 		}
 		g.Emit("refreshseq", c13Ints(c13Subset(g))+"/1", strings.Join(evs, "#"))
+	}
+	// 3e. replays on ONE provider / store: a small pool of ciphertexts (topologies with repeated peers, same size and
+	//     threshold as the initial one, a subset, a reordering) announced under each other's hashes, in every order
+	{
+		pool := [][]int{{0, 1, 2, 2}, {0, 1, 2}, {3, 2, 1, 0}}
+		cts := [][]byte{}
+		for _, ps := range pool {
+			cts = append(cts, c13Encrypt(g.Bytes(16), c13TopoJSON(g, ps, "2")))
+		}
+		evAlpha := []string{}
+		for i, ct := range cts {
+			b := hx([]byte(hex.EncodeToString(ct)))
+			for j := range cts {
+				evAlpha = append(evAlpha, c13Sha(cts[j])+"~"+b+"~"+c13Oracle(ct)+"~1")
+			}
+			evAlpha = append(evAlpha, c13Sha([]byte{byte(i)})+"~"+b+"~"+c13Oracle(ct)+"~1")
+			evAlpha = append(evAlpha, "B~"+b+"~"+c13Oracle(ct)+"~1")
+		}
+		for _, e1 := range evAlpha {
+			for _, e2 := range evAlpha {
+				g.Emit("refreshseq", "0,1,2,3/2", e1+"#"+e2)
+			}
+		}
+		// adopt one, adopt another, then every event (a replay of the first body under any announcement comes third)
+		good := []string{}
+		for i, ct := range cts {
+			good = append(good, c13Sha(ct)+"~"+hx([]byte(hex.EncodeToString(ct)))+"~"+c13Oracle(cts[i])+"~1")
+		}
+		for _, e1 := range good {
+			for _, e2 := range good {
+				if e1 == e2 {
+					continue
+				}
+				for _, e3 := range evAlpha {
+					g.Emit("refreshseq", "0,1,2,3/2", e1+"#"+e2+"#"+e3)
+				}
+			}
+		}
+		for i := 0; i < g.Count(250, 5000); i++ {
+			n := 3 + g.Intn(4)
+			evs := []string{}
+			for j := 0; j < n; j++ {
+				evs = append(evs, g.Pick(evAlpha))
+			}
+			g.Emit("refreshseq", []string{"0,1,2,3/2", "0,1,2/2", "2,1,0,0/2"}[g.Intn(3)], strings.Join(evs, "#"))
+		}
+	}
+	// 3f. peer LISTS (order, repetitions) — every initial list × every announced list of 3 entries over {0,1,2}, same threshold
+	{
+		lists := []string{}
+		for x := 0; x < 3; x++ {
+			for y := 0; y < 3; y++ {
+				for z := 0; z < 3; z++ {
+					lists = append(lists, itoa(x)+","+itoa(y)+","+itoa(z))
+				}
+			}
+		}
+		toInts := func(s string) []int {
+			out := []int{}
+			for _, x := range strings.Split(s, ",") {
+				out = append(out, int(u64(x)))
+			}
+			return out
+		}
+		for _, a := range lists {
+			for _, b := range lists {
+				if !g.Thorough() && g.Intn(3) != 0 && a != b {
+					continue
+				}
+				ct := c13Encrypt(g.Bytes(16), c13TopoJSON(g, toInts(b), "2"))
+				g.Emit("refresh", a+"/2", c13Sha(ct), hx([]byte(hex.EncodeToString(ct))), c13Oracle(ct), "1")
+			}
+		}
 	}
 	// 4. refresh: body variants × announced-hash variants × event lists × store outcome
 	// 4a. systematic: an otherwise fully acceptable refresh × every threshold string × store outcome × position of the
